@@ -50,6 +50,29 @@ fn main() {
     } else if tier != "quick" && tier != "thorough" {
         machinery_failure("tier must be quick, thorough or replay");
     }
+    // Last line of defence: code under test that blocks threads for good (instead of awaiting) can
+    // starve the runtime, including the timers behind every bounded wait and per-cell watchdog. All
+    // waits of a run add up to a small fraction of this deadline on the unchanged tree.
+    {
+        let id = id.clone();
+        let tier = tier.clone();
+        let deadline = std::env::var("VERIF_E2E_DEADLINE_S").ok().and_then(|s| s.parse().ok()).unwrap_or(if tier == "quick" { 600u64 } else { 2700 });
+        std::thread::spawn(move || {
+            std::thread::sleep(std::time::Duration::from_secs(deadline));
+            let mut rep = vcommon::report::Reporter::new(&id, if tier == "replay" { "thorough" } else { &tier }, "fault_enumeration");
+            rep.violation(vcommon::report::Violation {
+                property: id.clone(),
+                clause: "hung".into(),
+                fingerprint: format!("{id}:hung:engine"),
+                message: format!("the run did not finish within {deadline} s although every wait in it is bounded (the unchanged tree needs a small fraction of that): the code under test blocks threads for good, e.g. by waiting synchronously inside a destructor"),
+                case: serde_json::json!({"engine": "e2elab", "cell": "whole-run"}),
+                choices: vec![],
+                deviations: 0,
+                trace: vec![],
+            });
+            rep.finish(serde_json::json!({"evaluations": 1, "distinct_nontrivial": 1, "rule": "global deadline of the end-to-end engine", "exhaustive": false, "explanation": "the run was cut short by the global deadline"}));
+        });
+    }
     let rt = tokio::runtime::Builder::new_multi_thread().worker_threads(16).enable_all().build().expect("tokio runtime");
     let run_tier = if tier == "replay" { "thorough".to_string() } else { tier.clone() };
     let replaying = tier == "replay";
